@@ -393,6 +393,55 @@ def oracle_n(ctx, st, n):
                              desc, {"clause": "complex_entry"})
 
 
+def oracle_n_light(ctx, st, n):
+    """Cheaper pass used for the lengths not given the whole impulse basis: 8 impulses + a
+    random integer signal as the traces of one 2-D call; integer shifts vs np.roll,
+    identity, per-trace shifts, composition with an integer shift."""
+    from ibldsp import fourier
+    rng = ctx.rng
+    dt = rng.choice(["f64", "f64", "f32"])
+    pos = sorted({0, 1, n // 2, n - 1} | {rng.randrange(n) for _ in range(4)})
+    X = np.zeros((len(pos) + 1, n), dtype=DT[dt])
+    for i, q in enumerate(pos):
+        X[i, q] = 1
+    X[-1] = [rng.randrange(-100, 101) for _ in range(n)]
+    before = X.copy()
+    for m in (0, rng.randrange(-n + 1, n), rng.choice([n, -n - 1, 3 * n + 2, 1, -1])):
+        desc = {"kind": "light", "n": n, "dtype": dt, "impulses_at": pos, "last_row": X[-1].tolist(), "shift": m}
+        y = call(ctx, st, "fshift", lambda: fourier.fshift(X, m), desc, {"clause": "roll"})
+        if y is None or not shape_ok(ctx, y, X, desc):
+            continue
+        st.count("light_int_shift")
+        if m % n:
+            st.nontrivial.add((n, dt, "int", m))
+        ok, err = close(y, np.roll(X, m, axis=-1), dt, 100.0)
+        if not ok:
+            ctx.fail("integer shift %d is not np.roll (max err %.3g)" % (m, err), desc,
+                     {"clause": "roll" if m % n else "identity"})
+    if not np.array_equal(X, before):
+        ctx.fail("real input array modified by fshift", {"kind": "light", "n": n, "dtype": dt},
+                 {"clause": "input_untouched"})
+    sv = np.array([rng.randrange(-n + 1, n) for _ in range(X.shape[0])], dtype=float)
+    s1 = round(rng.uniform(-n, n), 9)
+    desc = {"kind": "light", "n": n, "dtype": dt, "impulses_at": pos, "last_row": X[-1].tolist(),
+            "svec": sv.tolist(), "s": s1}
+    r = call(ctx, st, "fshift", lambda: (fourier.fshift(X, sv), fourier.fshift(fourier.fshift(X, s1), sv),
+                                         fourier.fshift(X, sv + s1)), desc, {"clause": "per_trace"})
+    if r is not None and all(shape_ok(ctx, v, X, desc) for v in r):
+        st.count("light_per_trace")
+        st.nontrivial.add((n, dt, "light_per_trace"))
+        exp = np.stack([np.roll(X[i], int(sv[i])) for i in range(X.shape[0])])
+        ok, err = close(r[0], exp, dt, 100.0)
+        if not ok:
+            ctx.fail("per-trace integer shifts are not per-trace rolls (max err %.3g)" % err, desc,
+                     {"clause": "per_trace"})
+        ok, err = close(r[1], r[2], dt, 100.0 * (100 if dt == "f32" else 1))
+        if not ok:
+            ctx.fail("a fractional shift followed by per-trace integer shifts does not add up (max err %.3g)" % err,
+                     desc, {"clause": "compose", "shifts": "frac+int", "nyquist_content": True,
+                            "parity": "even" if n % 2 == 0 else "odd"})
+
+
 # --------------------------------------------------------------------------
 # model correspondence (Q(i) instance, small n)
 # --------------------------------------------------------------------------
@@ -644,6 +693,12 @@ def run(ctx):
     ns = n_values(ctx)
     for n in ns:
         oracle_n(ctx, st, n)
+    full = set(ns)
+    light = [n for n in range(2, 2049) if n not in full] if ctx.thorough() else \
+        sorted({ctx.rng.randrange(2, 2049) for _ in range(60)} - full)
+    for n in light:
+        oracle_n_light(ctx, st, n)
+    st.dist["n_values_light"] = len(light)
     measure_delay(ctx, st)
     samples = [{"shape": c["shape"], "axis": c["axis"], "dtype": c["dtype"], "x": c["x"][:8], "s": c["s"]}
                for c in kept[:: max(1, len(kept) // 6)]]
@@ -725,6 +780,21 @@ def replay(ctx, data):
                 inp["shift"], float(sc), float(np.max(np.abs(r - sp)) / np.max(np.abs(sp)))))
             return 1 if abs(float(sc) - inp["shift"]) > 0.05 or np.max(np.abs(r - sp)) > 0.02 * np.max(np.abs(sp)) else 0
         n = inp["n"]
+        if kind == "light":
+            pos = inp.get("impulses_at", [0])
+            X = np.zeros((len(pos) + 1, n), dtype=DT[dt])
+            for i, q in enumerate(pos):
+                X[i, q] = 1
+            X[-1] = inp.get("last_row", [0] * n)
+            if "shift" in inp:
+                return _cmp("fshift(X, %d) vs np.roll" % inp["shift"], fourier.fshift(X, inp["shift"]),
+                            np.roll(X, inp["shift"], axis=-1), tol * 100)
+            sv = np.array(inp["svec"], dtype=float)
+            rc = _cmp("per-trace integer shifts vs rolls", fourier.fshift(X, sv),
+                      np.stack([np.roll(X[i], int(sv[i])) for i in range(X.shape[0])]), tol * 100)
+            return rc or _cmp("fshift(fshift(X,s),svec) vs fshift(X,s+svec)",
+                              fourier.fshift(fourier.fshift(X, inp["s"]), sv), fourier.fshift(X, sv + inp["s"]),
+                              tol * 100 * (100 if dt == "f32" else 1))
         eye = np.eye(n, dtype=DT[dt])
         if kind == "impulse_int":
             m, ax = inp["shift"], inp.get("axis", -1)
